@@ -22,7 +22,13 @@ pub enum DetCase {
 /// The transcript of one case, or the violation that stopped it.
 pub fn transcript(case: &DetCase) -> Result<Vec<String>, Violation> {
     match case {
-        DetCase::Hist(h) => hist::run_history(h, true).map(|(_, t)| t.unwrap_or_default()),
+        DetCase::Hist(h) => hist::run_history(h, true).map(|(_, t)| t.unwrap_or_default()).map_err(|mut v| {
+            // state leaking from one world into another is C20's business
+            if v.signature == "other-world-maintain" {
+                v.prop = "C20".to_string();
+            }
+            v
+        }),
         DetCase::Save(s) => props_save::det_save(s),
     }
 }
